@@ -1,6 +1,9 @@
 (* SoilBuildR.v — theorems about Init/SoilBuild.v at the real instance (exact arithmetic).
-   C18: the profile is built as specified (ordering of the hydraulic values, geometry, contiguous layers),
-   the deepening loop (and its non-termination, finding 9), the initial water content. *)
+   C18: the profile is built as specified (ordering of the hydraulic values, geometry, contiguous layers), the deepening
+   loop (terminates since /repo 1d078f4; leaves zBot/z_top/zMid stale: [deepen_geometry_refuted]), the initial water content
+   (Layer and Depth methods; [iwc_in_bounds_refuted]: layers not named stay at 0), the pedotransfer ordering (partial, refuted
+   on the full calibrated range).  Only the [box*]/[texture_*] lemmas use the Interval library (primitive-integer/float axioms
+   of its computation kernel); every other theorem depends on the axioms of Coq's Reals only. *)
 From AC Require Import Num RInst Params.
 From AC.proofs Require Import ProfR.
 From AC.Init Require Import SoilBuild.
